@@ -372,8 +372,9 @@ func (s *Seq) checkSearch(q *Query, mode string, limit int, tagOv, ctx string) {
 	if expErr != "" {
 		s.stat("search-error-expected:" + expErr)
 		if sr.Err() == nil {
-			// on an empty collection an empty answer is also a valid result
-			if len(s.M.Objs) == 0 {
+			// on an empty collection an empty answer is also a valid result;
+			// so it is, always, for a pattern match on a non-string field
+			if len(s.M.Objs) == 0 || expErr == model.ERegexNonString {
 				s.loose("bad-args-on-empty:"+expErr+"|"+q.String(), "empty-result")
 				if objs, err := sr.Collect(); err != nil || len(objs) != 0 {
 					s.fail("args", "bad-args-yield-objects", "%s: unevaluable query returned %d objects, err=%v", ctx, len(objs), err)
@@ -388,7 +389,7 @@ func (s *Seq) checkSearch(q *Query, mode string, limit int, tagOv, ctx string) {
 		if objs, err := sr.Collect(); err == nil || len(objs) != 0 {
 			s.fail("args", "errored-search-yields-objects", "%s: search with Err()=%v collected %d objects, err=%v", ctx, sr.Err(), len(objs), err)
 		}
-		if expErr != model.EBadRegex && expErr != model.EAnyErr {
+		if expErr != model.EBadRegex && expErr != model.EAnyErr && expErr != model.ERegexNonString {
 			if got := ErrClass(sr.Err()); got != expErr {
 				s.fail("args", "wrong-arg-error-class:"+expErr+":"+got, "%s: expected error class %s, got %v", ctx, expErr, sr.Err())
 			}
@@ -742,7 +743,17 @@ func (s *Seq) genBadCmp(r *simrt.Rand) Cmp {
 	}
 	good := GenProbe(r, s.Pools, path)
 	isStr := typeOfPath(path) == "string"
-	switch r.Intn(5) {
+	switch r.Intn(6) {
+	case 5:
+		// a pattern match on a field that is not a string, with a value of the field's own type
+		for try := 0; try < 8 && isStr; try++ {
+			path = all[r.Intn(len(all))]
+			isStr = typeOfPath(path) == "string"
+		}
+		if !isStr {
+			return Cmp{Path: path, Op: "~=", V: GenProbe(r, s.Pools, path)}
+		}
+		return Cmp{Path: "Nope", Op: "=", V: Val{T: "string", S: "a"}}
 	case 0:
 		f := []string{"Nope", "In.Nope", "S.x", "P.Nope.N", "", "emb.E", "P", "In", "Emb", "Tags", "M", "L", "I8.x.y"}[r.Intn(13)]
 		return Cmp{Path: f, Op: "=", V: Val{T: "string", S: "a"}}
